@@ -121,7 +121,11 @@ static void log_call_begin(const char* op, int h, int id, long n, size_t al, siz
           cur_t, call_at ? "true" : "false", op, h, id, n, al, off, zero ? "true" : "false", cls, arena, stopat);
   call_at = 0;
 }
-static void log_call_end(void) { vf_logf("}"); vf_log_line_end(); if (vf_watchdog) alarm(vf_watchdog); vf_in_call = 1; if (cur_t == 0) owner_busy = 1; }
+static void log_call_end(void) { vf_logf("}"); vf_log_line_end(); if (vf_watchdog) alarm(vf_watchdog);
+#if defined(VF_SHIM)
+  vf_os_in_call = 0;
+#endif
+  vf_in_call = 1; if (cur_t == 0) owner_busy = 1; }
 typedef struct { int null; int id; void* a; size_t us, z, wr, keep; uint32_t gen; int rc, err, outkeep, res, h; long nvisited; } ret_t;
 static void log_ret_begin(const char* op, const ret_t* r) {
   vf_in_call = 0; if (cur_t == 0) owner_busy = 0;
